@@ -1754,7 +1754,7 @@ MANIFEST = {
     "design_ref": "DESIGN.md 4/C16",
 }
 FINDINGS = [
-    {"status": "fixed", "key": "macro:foreign-hypothesis", "commit": "fixes/C16-6.patch",
+    {"status": "fixed", "key": "macro:foreign-hypothesis", "commit": "48c1906",
      "what": "simplex_macro on [-1 * x_1 + -2 * x_2 >= -1, x_1 + 2 * x_2 >= 2] returned x_2 + 2 * x_2 >= 2, -1 * x_2 + -2 * x_2 >= -1 |- false: "
              "term_to_ineq renames variables to x_0, x_1, ... and translates back one variable after the other, so given variables with such "
              "names are conflated (hypotheses are not the given constraints, or the back translation fails)"},
